@@ -161,3 +161,52 @@ func (a *Analyzer) BoolEquivalent(st *State, b *Bool, c Con) bool {
 	}
 	return true
 }
+
+// KnownNotEqualStr: on the way to st the string s was compared with the constant k and found different
+// (a branch on `s == k` / `s != k`, also through a switch, took the "different" side).
+func (a *Analyzer) KnownNotEqualStr(st *State, s *Slice, k string) bool {
+	for id, pair := range a.strEq {
+		eq, decided := st.BoolFacts[id]
+		if !decided || eq {
+			continue
+		}
+		x, y := pair[0], pair[1]
+		for i := 0; i < 2; i++ {
+			if x.Base == s.Base && x.Off.Equal(s.Off) && x.Len.Equal(s.Len) && y.Base.Str != nil && y.Off.IsConst() && y.Off.C == 0 && *y.Base.Str == k {
+				return true
+			}
+			x, y = y, x
+		}
+	}
+	return false
+}
+
+// ReadUint is the term binary.{Big,Little}Endian.UintN(s[off:]) evaluates to (same hash-consed atom).
+func (a *Analyzer) ReadUint(st *State, s *Slice, off Lin, w int64, le bool) Lin {
+	var t types.Type
+	switch w {
+	case 1:
+		t = types.Typ[types.Uint8]
+	case 2:
+		t = types.Typ[types.Uint16]
+	case 4:
+		t = types.Typ[types.Uint32]
+	default:
+		t = types.Typ[types.Uint64]
+	}
+	op := "rd"
+	if le {
+		op = "rdle"
+	}
+	o := s.Off.Add(off)
+	at := a.structAtom(op, int64(st.Ver[s.Base.ID]), t, "u(…)", &baseRef{s.Base}, Int{o}, Int{Const(w)})
+	return AtomLin(at)
+}
+
+// BoolSource: the library predicate an unknown boolean stands for (bytes.HasPrefix(x, y), …), if any.
+func (a *Analyzer) BoolSource(b *Bool) *BoolSrc {
+	if b == nil {
+		return nil
+	}
+	return a.boolSrc[b.ID]
+}
